@@ -16,7 +16,7 @@ def run(out: common.Outcome):
     common.pins_changed(out, system_common.PINS)
     n = 300 if out.tier == "quick" else 10000
     n = int(n * out.boost)
-    mons = ["report_fifo", "internal_error"]
+    mons = ["report_fifo", "internal_error", "stop"]      # stop: a collection error that every worker hits counts ONCE towards --maxfail
     for prof, share in (("nocrash", 0.5), ("mixed", 0.5)):
         jobs = system_common.make_jobs(rnd, int(n * share), prof)
         system_common.run_sessions(out, corr, rnd, jobs, mons, f"sessions({prof})",
